@@ -123,6 +123,10 @@ def gen_world(rng, nmin=3, nmax=20, na_rate=0.0, na_cols=(), ordered_prob=0.5, f
     ks = sorted(set(kv))
     w.cols["C(k)"] = {"kind": "cat", "v": [ks.index(v) + 1 for v in kv], "decl": []}
     w.names["C(k)"] = [str(v) for v in ks]
+    # the same integers stored as an (unordered) pandas categorical: levels in numeric order
+    data["kcat"] = pd.Categorical(kv)
+    w.cols["kcat"] = {"kind": "cat", "v": [ks.index(v) + 1 for v in kv], "decl": []}
+    w.names["kcat"] = [str(v) for v in ks]
     # k itself used as a grouping variable, (e | k): its groups are the values of k in numeric order
     w.cols["k#grp"] = {"kind": "cat", "v": [ks.index(v) + 1 for v in kv], "decl": []}
     w.names["k#grp"] = [str(v) for v in ks]
@@ -271,7 +275,7 @@ def gen_formula(rng, groups=True, max_terms=4, resp="y", cat_comps=None, num_com
             k += 1
     gterms = []
     if groups and rng.random() < 0.6:
-        for _ in range(rng.randint(1, 2)):
+        for _ in range(rng.choice([1, 1, 2, 2, 3])):
             fac = rng.choice([["g"], ["h"], ["f"], ["g", "h"], ["C(k)"], ["k"]])
             eff = rng.choice([[], ["x"], ["z"], ["f"], ["o"], ["x", "f"], ["I(x * 2)"]])
             eff = [e for e in eff if e not in fac]
